@@ -330,9 +330,11 @@ func solveOb(o *Obligation, qdir string, timeoutS int, thorough bool, expectSat 
 		g = gt
 	}
 	if r.Status != "unsat" && r.Status != "sat" {
-		// give the lite query the full budget
+		// give the lite query the full budget, this time with ground closedness and frame instances for the
+		// reads that only exist in instantiated hypotheses
+		lite = writeQuery(qdir, base+".lite", o.BuildQueryX(false, true, false, false, 2.0, 1<<30, true))
 		r2 := runSolver("z3-new", lite, timeoutS)
-		r2.Solver = "z3-new(lite)"
+		r2.Solver = "z3-new(lite+)"
 		all = append(all, r2)
 		if r2.Status == "unsat" && !thorough {
 			return r2, all, lite
